@@ -282,6 +282,17 @@ def run(ctx, hook_cls=C02Hook, prop='C02', drv='drv_c02'):
     ctx.traces = ctx.evaluations
 
 
+def search(ctx, hook_cls=C02Hook):
+    """Failing-input search after a broken proof / correspondence: the oracle over many more histories (no model needed)."""
+    lb.quiet()
+    for hi in range(ctx.n(60, 300)):
+        if ctx.failures:
+            return
+        rng = ctx.subrng('search', hi)
+        run_history(ctx, MDIBS[hi % len(MDIBS)], rng, 35, [hook_cls(ctx)])
+        ctx.count('search-histories')
+
+
 def replay(ctx, obj):
     lb.quiet()
     case = obj['case']
